@@ -27,6 +27,16 @@ func VpV_SEE() {
 						continue
 					}
 					n++
+					// the any-choice enumeration (used to filter replays) must contain the fixed-choice value
+					inAll := false
+					for _, v := range vpSeeAllValues(b, from, to, promo) {
+						if v == want {
+							inAll = true
+						}
+					}
+					if !inAll {
+						vp.Disagree(fmt.Sprintf("see-any-choice %s %d->%d spec=%d not among %v", fen, from, to, want, vpSeeAllValues(b, from, to, promo)))
+					}
 					m := board.VpMove(from, to, promo)
 					for th := -1300; th <= 1300; th += 50 {
 						if SEE(b, m, Score(th)) != (want >= th) {
